@@ -36,8 +36,8 @@ Variable root_attrs : list (N * cdata).
 Definition run_op2 (o : op2) : W value2 :=
   match o with
   | Op1 o1 => (do v <- run_op T tab_el tab_en check_fn LATEST root_attrs o1; wret (V1 v))%W
-  | OpSort h => (do _ <- e_sort T tab_el tab_en name_index name_definition_ref h; wret (V1 VUnit))%W
-  | OpSortModel m => (do _ <- m_sort T tab_el tab_en name_index name_definition_ref m; wret (V1 VUnit))%W
+  | OpSort h => (do _ <- e_sort T tab_el tab_at tab_en name_index name_definition_ref h; wret (V1 VUnit))%W
+  | OpSortModel m => (do _ <- m_sort T tab_el tab_at tab_en name_index name_definition_ref m; wret (V1 VUnit))%W
   | OpDuplicate m => (do m' <- m_duplicate T tab_el tab_en check_fn LATEST root_attrs m; wret (V1 (VModel m')))%W
   | OpLoad m buffer filename strict =>
     (do '(f, ws) <- m_load_buffer T tab_el tab_at tab_en check_fn float_parse LATEST name_definition_ref m buffer filename strict;
@@ -49,7 +49,7 @@ Definition run_op2 (o : op2) : W value2 :=
   end.
 
 (* Element::cmp as a query *)
-Definition q_cmp (a b : id) : W comparison := elem_cmp T tab_el tab_en name_index name_definition_ref a b.
+Definition q_cmp (a b : id) : W comparison := elem_cmp T tab_el tab_at tab_en name_index name_definition_ref a b.
 Definition q_serialize_file (f : N) : W (list N) := f_serialize T tab_el tab_at tab_en check_fn float_fmt attr_schema_location f.
 
 End Script2.
